@@ -128,4 +128,17 @@ CHECKS = {
             "assumptions": ["fake time: DisposeTimeout and the disposal sleeps elapse only when nothing else can run", "DisposeForce: only release and no-deadlock are demanded (documented to cause panics)", "instrumenter + shims trusted; pkg/states and pkg/helpers are instrumented too"],
         },
     },
+    "C18": {
+        "pkg": "harness/c18",
+        "instr": {"features": ["sync", "go", "chan", "detselect"], "pkgs": ["pkg/machine", "pkg/states/pipes", "pkg/helpers"]},
+        "sched": True,
+        "shards": {"quick": 8, "thorough": 16},
+        "gomaxprocs": 2,
+        "budget_s": {"quick": 150, "thorough": 1800},
+        "meta": {
+            "rule": "stateless model checking: 9 drivers (Bind non-flat add/remove and burst of 4, BindMany, flat AddFlat/RemoveFlat burst, flat Err state with Exception already active on the target, Multi state, BindReady+BindStart, BindErr, BindAny); one toggling thread, the goroutines forked by the pipe handlers are controlled threads; every schedule with <= bound deviations; oracle at joint quiescence: target state active iff source state active (BindAny: equal active sets), every source mutation Executed; distinct_nontrivial = distinct end observations",
+            "nontrivial_set": "outcomes",
+            "assumptions": ["local targets only; network-machine targets are part of C09's harness", "instrumenter + shims trusted"],
+        },
+    },
 }
